@@ -104,11 +104,21 @@ def _x(s, attr=False):
     return "".join(o)
 
 
+_RTF_COUNTER = [0]
+
+
 def _body(nodes):
     o = []
     for n in nodes:
         k = n["k"]
-        if k == "elem":
+        if k == "text" and n.get("rtf"):
+            # the text instruction stands in a variable's result tree fragment and reaches the result through xsl:copy-of (for
+            # disable-output-escaping text the fragment carries a marker in front of the text node): the same result tree
+            _RTF_COUNTER[0] += 1
+            v = "f%d" % _RTF_COUNTER[0]
+            o.append('<xsl:variable name="%s"><xsl:text%s>%s</xsl:text></xsl:variable><xsl:copy-of select="$%s"/>' % (
+                v, ' disable-output-escaping="yes"' if n.get("doe") else "", _x(n["v"]), v))
+        elif k == "elem":
             o.append("<%s%s>%s</%s>" % (n["name"], "".join(' %s="%s"' % (a, _x(v, True)) for a, v in n["attrs"]), _body(n["kids"]), n["name"]))
         elif k == "text":
             o.append("<xsl:text%s>%s</xsl:text>" % (' disable-output-escaping="yes"' if n.get("doe") else "", _x(n["v"])))
@@ -178,7 +188,7 @@ class _Builder:
     names = None
 
 
-def parse_xml(data, override=None):
+def parse_xml(data, override=None, _in11=False):
     """bytes -> {"tree", "decl", "doctype"} or {"error"} using expat (python's pyexpat), no Xalan/Xerces code involved.
     Top-level whitespace is not part of the tree (XML has no text at document level)."""
     b = _Builder(); b.names = []
@@ -219,7 +229,33 @@ def parse_xml(data, override=None):
     except (LookupError, UnicodeError) as e:
         return {"error": "undecodable XML: %s" % e}
     info["tree"] = b.root
+    if info["decl"]["version"] == "1.1" and not override and not _in11:
+        # expat reads the document by XML 1.0 rules.  XML 1.1 differs where it matters here: NEL (U+0085), LSEP (U+2028) and CR NEL are
+        # line ends (read back as a line feed) and the restricted characters must not appear literally.  Decode, check, normalise, read again.
+        try:
+            if data[:2] in (b"\xff\xfe", b"\xfe\xff"):
+                text = data.decode("utf-16")
+            else:
+                text = data.decode(_pycodec(info["decl"]["encoding"]) or "utf-8")
+        except (LookupError, UnicodeError) as e:
+            return {"error": "undecodable XML: %s" % e}
+        text = text.lstrip("\ufeff")
+        for ch in text:
+            o = ord(ch)
+            if (1 <= o <= 8) or o in (0xB, 0xC) or (0xE <= o <= 0x1F) or (0x7F <= o <= 0x84) or (0x86 <= o <= 0x9F):
+                return {"error": "not well-formed XML 1.1: literal restricted character U+%04X" % o}
+        text = text.replace("\r\n", "\n").replace("\r\x85", "\n").replace("\x85", "\n").replace("\u2028", "\n").replace("\r", "\n")
+        again = parse_xml(text, _in11=True)
+        if "error" in again:
+            return again
+        info["tree"] = again["tree"]
     return info
+
+
+def _pycodec(name):
+    n = (name or "").lower()
+    return {"": "utf-8", "utf-8": "utf-8", "utf-16": "utf-16", "iso-8859-1": "latin-1", "us-ascii": "ascii", "windows-1252": "cp1252", "shift_jis": "shift_jis",
+            "gb18030": "gb18030", "ebcdic-cp-us": "cp037", "ibm037": "cp037", "koi8-r": "koi8-r", "iso-8859-2": "iso8859-2", "big5": "big5", "euc-jp": "euc_jp"}.get(n, n or "utf-8")
 
 
 class _Html(HTMLParser):
@@ -327,9 +363,10 @@ def canon_html(nodes):
 
 
 # ---------------------------------------------------------------------------------------- result trees
-def D(v):
-    """text written with disable-output-escaping="yes" (plain characters only, so it reads back as the same text)"""
-    return {"k": "text", "v": v, "doe": True}
+def D(v, rtf=False):
+    """text written with disable-output-escaping="yes" (plain characters only, so it reads back as the same text);
+    rtf: built in a variable's result tree fragment and copied from there"""
+    return dict({"k": "text", "v": v, "doe": True}, **({"rtf": True} if rtf else {}))
 
 
 def tree_of_events(events):
@@ -362,6 +399,24 @@ PIDATA = ["d", "a b", "", "x=\"1\"", "café"]
 ATTRVALS = ["v", "a b", "<&>\"'", "é€", "{x}", "  lead", "a\tb", "a\nb", "", "\U0001d11e"]
 
 
+# characters that are line ends or restricted characters of XML 1.1 but ordinary characters of XML 1.0 (all legal in both): the tree
+# must come back the same under every version / indent / encoding combination.  Only in trees that are written with the xml method
+# (an HTML parser reads &#133; as U+2026).
+LINE_TEXTS = ["a\u0085b", "l\u2028s", "d\u007fe", "\u0085", "x\u009fy", "n\u0085\u0085", "cr\rlf"]
+
+
+def line_trees():
+    """hand-made trees for the version x indent x encoding instantiations of the serializer and for copied raw text"""
+    out = []
+    for i, v in enumerate(LINE_TEXTS):
+        out.append([E("r", E("a", T(v), a=[["t", v]]), E("c", T(v + " < & ]]> " + v)), T(v))])
+    # disable-output-escaping text copied out of a result tree fragment into a cdata-section element (c), then text that needs escaping
+    out.append([E("r", E("c", D("raw", rtf=True)), T("1 < 2 & 3"), E("b", T("a<b&c>d")))])
+    out.append([E("r", E("c", T("x"), D("r ", rtf=True)), E("d", T("1 < 2 & 3 > 2"), a=[["t", "<&>"]]), D("r", rtf=True), T("a&b"))])
+    out.append([E("r", E("a", D("raw text", rtf=True), T(" a<b")), E("c", D("r", rtf=True), T("]]> & <")), T("z<"))])
+    return out
+
+
 def gen_xmlish(rng, depth=0):
     """seeded random tree: mixed content, whitespace-only text, comments / PIs, cdata-section element `c`, attributes with
     special characters, disable-output-escaping text; comments / PIs also around the document element"""
@@ -375,7 +430,7 @@ def gen_xmlish(rng, depth=0):
             elif r < 0.80:
                 if out and out[-1]["k"] == "text" and rng.random() < 0.8:
                     continue
-                out.append(D(rng.choice(["r", "raw text", "r "])) if rng.random() < 0.08 else T(rng.choice(TEXTS)))
+                out.append(D(rng.choice(["r", "raw text", "r "]), rtf=rng.random() < 0.5) if rng.random() < 0.08 else T(rng.choice(TEXTS)))
             elif r < 0.92:
                 out.append(C(rng.choice(COMMENTS)))
             else:
